@@ -294,7 +294,7 @@ func (g *aspGen) forStmt(ind int) {
 		// for k, v in sorted(d.items())
 		if dv := g.pickVar("itemsvar", func(v *avar) bool { return v.t.K == AspDict }); dv != nil {
 			g.feat("dict_items_sorted")
-			k, x := &avar{name: g.name("k"), t: tStr, ro: true, ln: -1, nonASCII: true}, &avar{name: g.name("x"), t: *dv.t.E, ro: true, aliased: true, ln: -1, nonASCII: true}
+			k, x := &avar{name: g.name("k"), t: tStr, ro: true, ln: -1, nonASCII: true}, &avar{name: g.name("x"), t: *dv.t.E, ro: true, aliased: true, ln: -1, nonASCII: true, folded: dv.folded}
 			lv = []*avar{k, x}
 			names = k.name + ", " + x.name + " in sorted(" + dv.name + ".items())"
 		}
